@@ -1,17 +1,28 @@
 #!/bin/bash
-# Apply a seeded change to /repo's working tree, run the given checks against it
-# (evidence and replays go to a scratch directory), and undo the change.
+# Run checks against a seeded change. Default: in a scratch worktree of /repo
+# (the check instruments that tree and overlays it onto /repo's paths), so /repo
+# itself is never modified and background runs are not disturbed. With
+# SEEDTEST_INPLACE=1 the patch is applied to /repo's working tree and reverted
+# afterwards (the way the brief describes; /repo must be clean).
 # usage: tools/seedtest.sh <patch> <property> [<property>...]
 set -u
-patch=$1; shift
-if [ -n "$(git -C /repo status --porcelain)" ]; then echo "refusing: /repo has uncommitted changes"; exit 2; fi
-git -C /repo apply "$patch" || { echo "patch does not apply"; exit 2; }
-trap 'git -C /repo checkout -- . ; git -C /repo clean -fdq' EXIT
+patch=$(readlink -f "$1"); shift
 cd /verif; . ./env.sh
-scratch=/verif/.work/seedtest
+scratch=/verif/.work/seedtest-$$
 rm -rf $scratch; mkdir -p $scratch
+if [ "${SEEDTEST_INPLACE:-0}" = 1 ]; then
+  if [ -n "$(git -C /repo status --porcelain)" ]; then echo "refusing: /repo has uncommitted changes"; exit 2; fi
+  git -C /repo apply "$patch" || { echo "patch does not apply"; exit 2; }
+  trap 'git -C /repo checkout -- . ; git -C /repo clean -fdq; rm -rf $scratch' EXIT
+else
+  wt=/tmp/seedrepo-$$
+  git -C /repo worktree add -q --detach $wt HEAD || exit 2
+  trap 'git -C /repo worktree remove --force $wt; rm -rf $scratch' EXIT
+  git -C $wt apply "$patch" || { echo "patch does not apply"; exit 2; }
+  export DSIM_REPO=$wt
+fi
 for p in "$@"; do
-  timeout 1800 ./bin/dsim check $p --out $scratch ${SEEDTEST_ARGS:-} > $scratch/$p.out 2>&1
+  timeout 2400 ./bin/dsim check $p --out $scratch ${SEEDTEST_ARGS:-} > $scratch/$p.out 2>&1
   rc=$?
   echo "== $p exit=$rc"; grep -E "^(violation|VIOLATION|KNOWN-FINDING|HARNESS-ERROR)" $scratch/$p.out | cut -c1-400 | head -6
 done
